@@ -9,12 +9,23 @@ G10 guards     : for the branches whose test is one boolean `self.X.match(line)`
                  the compiled pattern object (`re._parser`), as a term of `Ford.Rx.Re`
                  (lean/FordModel/CallsRegex.lean) that the model interprets
 
+G11 scope     : what decides, for a name that ends a recorded chain of length 1, whether
+                 `correlate()` removes it as "a variable" (round 4):
+                 * `scopeFilter`  - the comprehension in `FortranCodeUnit._cleanup` that drops the
+                   entities with the EXTERNAL attribute from `self.variables`: the keyword and the
+                   normalisation applied to each attribute before the comparison (ast);
+                 * `labelOrder`   - the order in which `_find_chain_item.get_label_item` merges the
+                   name tables of a scope (`labels.update(...)`; the later wins);
+                 * `removedKinds` - the classes in the `isinstance(item, (...))` test of the loop
+                   "Match up called procedures" in `FortranCodeUnit.correlate`.
+
 A construct that cannot be found raises (= "tie broken", never a pass).
 """
 from __future__ import annotations
 
 import ast
 import importlib
+import re
 import sys
 from pathlib import Path
 
@@ -294,7 +305,188 @@ def get_guards() -> list[tuple[str, str, bool, str, str]]:
     return out
 
 
-def render(intr: list[str], casc: list[tuple[str, str]], guards) -> str:
+# --------------------------------------------------------------------------
+# G11: which names are variables of a scope, and what `correlate` removes
+# --------------------------------------------------------------------------
+
+NORM_OPS = ("lower", "upper", "strip", "casefold")
+
+
+def _sourceform_class(name: str) -> ast.ClassDef:
+    path = common.REPO / "ford" / "sourceform.py"
+    tree = ast.parse(path.read_text())
+    cls = next((n for n in tree.body if isinstance(n, ast.ClassDef) and n.name == name), None)
+    if cls is None:
+        raise ValueError(f"class {name} not found")
+    return cls
+
+
+def _method(cls: ast.ClassDef, name: str) -> ast.FunctionDef:
+    fn = next((n for n in cls.body if isinstance(n, ast.FunctionDef) and n.name == name), None)
+    if fn is None:
+        raise ValueError(f"{cls.name}.{name} not found")
+    return fn
+
+
+def _norm_ops(expr: ast.AST, var: str) -> list[str]:
+    """`var.lower().strip()` -> ['lower', 'strip'] (application order); `var` -> []"""
+    ops = []
+    e = expr
+    while True:
+        if isinstance(e, ast.Name) and e.id == var:
+            return list(reversed(ops))
+        if (isinstance(e, ast.Call) and isinstance(e.func, ast.Attribute) and not e.args and not e.keywords
+                and e.func.attr in NORM_OPS):
+            ops.append("lower" if e.func.attr == "casefold" else e.func.attr)
+            e = e.func.value
+            continue
+        raise ValueError(f"unsupported attribute normalisation {ast.unparse(expr)}")
+
+
+def _is_attr(node: ast.AST, obj: str, attr: str) -> bool:
+    return (isinstance(node, ast.Attribute) and node.attr == attr
+            and isinstance(node.value, ast.Name) and node.value.id == obj)
+
+
+def get_scope_filter() -> tuple[str, list[str]]:
+    """(keyword, normalisation ops) of `self.variables = [v for v in self.variables if <kw> not in
+    [<norm>(attr) for attr in v.attribs]]` in FortranCodeUnit._cleanup.  Accepted spellings of the
+    condition: `K not in [f(a) for a in v.attribs]`, `K not in v.attribs`,
+    `not any(f(a) == K for a in v.attribs)`, `all(f(a) != K for a in v.attribs)`."""
+    fn = _method(_sourceform_class("FortranCodeUnit"), "_cleanup")
+    found = []
+    for n in ast.walk(fn):
+        if not (isinstance(n, ast.Assign) and len(n.targets) == 1 and _is_attr(n.targets[0], "self", "variables")):
+            continue
+        val = n.value
+        if isinstance(val, ast.Call) and isinstance(val.func, ast.Name) and val.func.id == "list" and len(val.args) == 1:
+            val = val.args[0]
+        if not isinstance(val, (ast.ListComp, ast.GeneratorExp)) or len(val.generators) != 1:
+            raise ValueError("FortranCodeUnit._cleanup: `self.variables = ...` is not a single comprehension")
+        g = val.generators[0]
+        if not (isinstance(g.target, ast.Name) and _is_attr(g.iter, "self", "variables") and len(g.ifs) == 1
+                and isinstance(val.elt, ast.Name) and val.elt.id == g.target.id):
+            raise ValueError("FortranCodeUnit._cleanup: unexpected shape of the variables filter")
+        found.append((g.target.id, g.ifs[0]))
+    if len(found) != 1:
+        raise ValueError(f"FortranCodeUnit._cleanup: {len(found)} filters of self.variables (expected 1)")
+    v, cond = found[0]
+
+    def comp_over_attribs(c):
+        """(element expression, loop variable) of a comprehension over `v.attribs`"""
+        if (isinstance(c, (ast.ListComp, ast.GeneratorExp, ast.SetComp)) and len(c.generators) == 1
+                and not c.generators[0].ifs and isinstance(c.generators[0].target, ast.Name)
+                and _is_attr(c.generators[0].iter, v, "attribs")):
+            return c.elt, c.generators[0].target.id
+        return None
+
+    # K not in X
+    if (isinstance(cond, ast.Compare) and len(cond.ops) == 1 and isinstance(cond.ops[0], ast.NotIn)
+            and isinstance(cond.left, ast.Constant) and isinstance(cond.left.value, str)):
+        kw, x = cond.left.value, cond.comparators[0]
+        if _is_attr(x, v, "attribs"):
+            return kw, []
+        co = comp_over_attribs(x)
+        if co:
+            return kw, _norm_ops(co[0], co[1])
+    # not any(f(a) == K for a in v.attribs)  /  all(f(a) != K for a in v.attribs)
+    inner, want = None, None
+    if (isinstance(cond, ast.UnaryOp) and isinstance(cond.op, ast.Not) and isinstance(cond.operand, ast.Call)
+            and isinstance(cond.operand.func, ast.Name) and cond.operand.func.id == "any" and len(cond.operand.args) == 1):
+        inner, want = cond.operand.args[0], ast.Eq
+    elif (isinstance(cond, ast.Call) and isinstance(cond.func, ast.Name) and cond.func.id == "all" and len(cond.args) == 1):
+        inner, want = cond.args[0], ast.NotEq
+    if inner is not None:
+        co = comp_over_attribs(inner)
+        if co and isinstance(co[0], ast.Compare) and len(co[0].ops) == 1 and isinstance(co[0].ops[0], want):
+            a, b = co[0].left, co[0].comparators[0]
+            if isinstance(a, ast.Constant):
+                a, b = b, a
+            if isinstance(b, ast.Constant) and isinstance(b.value, str):
+                return b.value, _norm_ops(a, co[1])
+    raise ValueError(f"FortranCodeUnit._cleanup: unsupported condition of the variables filter: {ast.unparse(cond)}")
+
+
+LABEL_SOURCES = ("all_procs", "boundprocs", "all_types", "extends", "all_vars", "args", "retvar", "variables")
+
+
+def get_label_order() -> list[str]:
+    """the order in which `get_label_item` (inside `_find_chain_item`) merges the tables of a
+    context into `labels`; every top-level statement between `labels = {}` and the `return`
+    must mention exactly one known source"""
+    fn = _method(_sourceform_class("FortranCodeUnit"), "_find_chain_item")
+    gli = next((n for n in fn.body if isinstance(n, ast.FunctionDef) and n.name == "get_label_item"), None)
+    if gli is None:
+        raise ValueError("_find_chain_item.get_label_item not found")
+    order = []
+    started = False
+    for st in gli.body:
+        src = ast.unparse(st)
+        if isinstance(st, ast.Expr) and isinstance(st.value, ast.Constant):
+            continue  # docstring
+        if not started:
+            if src.replace(" ", "") == "labels={}":
+                started = True
+                continue
+            raise ValueError(f"get_label_item: unexpected statement before `labels = {{}}`: {src}")
+        if isinstance(st, ast.Return):
+            if src.replace(" ", "") not in ("returnlabels.get(label,None)", "returnlabels.get(label)"):
+                raise ValueError(f"get_label_item: unexpected return {src}")
+            break
+        if "labels" not in src:
+            if isinstance(st, ast.Assign) and src.startswith("extend_type"):
+                continue
+            raise ValueError(f"get_label_item: statement does not touch `labels`: {src}")
+        hits = [k for k in LABEL_SOURCES
+                if re.search(r"['\"]%s['\"]|\b%s\b" % (k, k), src) and (k != "extends" or "extend" in src)]
+        if len(hits) != 1:
+            raise ValueError(f"get_label_item: cannot attribute statement to one name table: {src} -> {hits}")
+        order.append(hits[0])
+    else:
+        raise ValueError("get_label_item: no return statement")
+    if sorted(order) != sorted(set(order)):
+        raise ValueError(f"get_label_item: a name table is merged twice: {order}")
+    for need in ("all_procs", "all_types", "all_vars", "variables"):
+        if need not in order:
+            raise ValueError(f"get_label_item: name table {need} is no longer consulted")
+    return order
+
+
+def get_removed_kinds() -> list[str]:
+    """class names in `if not isinstance(item, (...))` of the `for call in self.calls` loop of
+    FortranCodeUnit.correlate"""
+    fn = _method(_sourceform_class("FortranCodeUnit"), "correlate")
+    loops = [n for n in ast.walk(fn) if isinstance(n, ast.For) and _is_attr(n.iter, "self", "calls")]
+    if len(loops) != 1:
+        raise ValueError(f"correlate: {len(loops)} loops over self.calls (expected 1)")
+    tests = [n for n in ast.walk(loops[0]) if isinstance(n, ast.If)]
+    out = None
+    for t in tests:
+        c = t.test
+        if (isinstance(c, ast.UnaryOp) and isinstance(c.op, ast.Not) and isinstance(c.operand, ast.Call)
+                and isinstance(c.operand.func, ast.Name) and c.operand.func.id == "isinstance"
+                and len(c.operand.args) == 2 and isinstance(c.operand.args[0], ast.Name)):
+            k = c.operand.args[1]
+            elts = k.elts if isinstance(k, ast.Tuple) else [k]
+            if not all(isinstance(e, ast.Name) for e in elts):
+                raise ValueError("correlate: isinstance test with non-name classes")
+            if out is not None:
+                raise ValueError("correlate: more than one isinstance filter in the calls loop")
+            out = [e.id for e in elts]
+            if "tmplst.append" not in ast.unparse(t.body[0]) or t.orelse:
+                raise ValueError("correlate: the isinstance filter no longer guards `tmplst.append(item)`")
+    if out is None:
+        raise ValueError("correlate: `if not isinstance(item, (...))` filter of the calls loop not found")
+    return out
+
+
+def lean_chars(s: str) -> str:
+    if not s or not all(32 <= ord(c) < 127 for c in s):
+        raise ValueError(f"bad keyword {s!r}")
+    return "[" + ", ".join(lean_char(ord(c)) for c in s) + "]"
+
+
+def render(intr: list[str], casc: list[tuple[str, str]], guards, scope=None) -> str:
     lines = ["/- GENERATED by translate/c08.py from ford/intrinsics.py and ford/sourceform.py - do not edit -/",
              "import FordModel.CallsRegex",
              "namespace Ford.Generated.C08", "",
@@ -319,7 +511,17 @@ def render(intr: list[str], casc: list[tuple[str, str]], guards) -> str:
               "def guards : Ford.Rx.Guards := ["]
     for k, (name, method, ci, term, src) in enumerate(guards):
         lines.append(f"  ({lean_str(name)}, {'true' if method == 'search' else 'false'}, rx{name})" + ("," if k + 1 < len(guards) else ""))
-    lines += ["]", "", "end Ford.Generated.C08", ""]
+    lines += ["]", ""]
+    if scope is not None:
+        (kw, ops), order, removed = scope
+        lines += ["/-- the EXTERNAL filter of `FortranCodeUnit._cleanup`: (keyword, normalisation applied to each",
+                  "    attribute before it is compared with the keyword, in application order) -/",
+                  f"def scopeFilter : List Char × List String := ({lean_chars(kw)}, [{', '.join(lean_str(o) for o in ops)}])", "",
+                  "/-- the order in which `get_label_item` merges the name tables of a scope (the later wins) -/",
+                  f"def labelOrder : List String := [{', '.join(lean_str(o) for o in order)}]", "",
+                  "/-- classes whose instances `correlate` removes from `calls` -/",
+                  f"def removedKinds : List String := [{', '.join(lean_str(o) for o in removed)}]", ""]
+    lines += ["end Ford.Generated.C08", ""]
     return "\n".join(lines)
 
 
@@ -327,9 +529,12 @@ def translate() -> dict:
     intr = get_intrinsics()
     casc = get_cascade()
     guards = get_guards()
-    common.write_if_changed(OUT, render(intr, casc, guards))
+    scope = (get_scope_filter(), get_label_order(), get_removed_kinds())
+    common.write_if_changed(OUT, render(intr, casc, guards, scope))
     return {"intrinsics": len(intr), "cascade": casc,
-            "guards": [{"branch": g[0], "method": g[1], "ignorecase": g[2], "pattern": g[4]} for g in guards]}
+            "guards": [{"branch": g[0], "method": g[1], "ignorecase": g[2], "pattern": g[4]} for g in guards],
+            "scope": {"filter": {"keyword": scope[0][0], "normalisation": scope[0][1]},
+                      "label_order": scope[1], "removed_kinds": scope[2]}}
 
 
 if __name__ == "__main__":
@@ -339,3 +544,4 @@ if __name__ == "__main__":
         print("  ", b)
     for g in info["guards"]:
         print("  ", g)
+    print("  ", info["scope"])
